@@ -766,7 +766,13 @@ func genAuth(t *rapid.T, v2 bool) authCase {
 	}
 	ids := rapid.Permutation([]uint16{1, 2, 3, 4, 5, 6, 7, 9, 10}).Draw(t, "avIds")
 	for i, n := 0, rapid.IntRange(0, 5).Draw(t, "nav"); i < n && !c.NoInfo; i++ {
+		// mostly short values; one pair in five is long (names of a deep DNS tree, a channel-binding or
+		// target-name blob): the target info then runs to hundreds or thousands of bytes, past any fixed-size
+		// scratch buffer on the way into the response
 		l := rapid.IntRange(0, 40).Draw(t, "avLen")
+		if rapid.IntRange(0, 4).Draw(t, "avLong") == 0 {
+			l = rapid.OneOf(rapid.IntRange(41, 400), rapid.SampledFrom([]int{200, 212, 216, 217, 220, 248, 255, 256, 257, 511, 512, 1000, 4000})).Draw(t, "avLenLong")
+		}
 		c.TargetInfo = append(c.TargetInfo, av{ids[i], rapid.SliceOfN(rapid.Byte(), l, l).Draw(t, "avVal")})
 	}
 	return c
